@@ -22,10 +22,19 @@ ReadProbe == <<PrintS(Var("a")), T(<<124>>), PrintS(Var("b")), T(<<124>>), Print
                If1(Test(Var("a"), "defined", <<>>, FALSE), <<T(<<65>>)>>), If1(Test(Var("c"), "defined", <<>>, FALSE), <<T(<<67>>)>>),
                If1(Test(Var("q"), "defined", <<>>, TRUE), <<T(<<81>>)>>)>>
 
-Behaviours == {"reads", "sets", "loops", "defs", "extends"}
+Behaviours == {"reads", "sets", "elsesets", "thensets", "loops", "defs", "extends"}
 Included(bh) ==
     CASE bh = "reads"  -> <<T(<<40>>)>> \o ReadProbe \o <<T(<<41>>)>>
       [] bh = "sets"   -> <<Set("a", LI(7)), Set("z", LI(8)), Set("c", LI(6)), T(<<40>>)>> \o ReadProbe \o <<T(<<41>>)>>
+      \* the same writes from inside the branches of if statements: where in the included template a set stands does not
+      \* matter.  elsesets: only in else branches (and the else of an else); thensets: in the then and elseif bodies
+      [] bh = "elsesets" -> <<IfElse(Var("nosuchvar"), <<T(<<33>>)>>,
+                                     <<Set("a", LI(7)), IfElse(Var("nosuchvar"), <<T(<<33>>)>>, <<Set("z", LI(8))>>)>>),
+                              IfElse(Var("nosuchvar"), <<T(<<33>>)>>, <<Set("c", LI(6))>>),
+                              T(<<40>>)>> \o ReadProbe \o <<T(<<41>>)>>
+      [] bh = "thensets" -> <<If1(LI(1), <<Set("a", LI(7)), If1(LI(1), <<Set("z", LI(8))>>)>>),
+                              If(<<Var("nosuchvar"), LI(1)>>, << <<T(<<33>>)>>, <<Set("c", LI(6))>> >>, <<T(<<33>>)>>, TRUE),
+                              T(<<40>>)>> \o ReadProbe \o <<T(<<41>>)>>
       [] bh = "loops"  -> <<T(<<40>>), For1("a", Lit(VL(<<VI(5), VI(6)>>)), <<PrintS(Var("a"))>>), T(<<41>>)>>
       [] bh = "defs"   -> <<Macro("mm", <<>>, <<T(<<77, 50>>)>>), Block("bb", <<T(<<66, 50>>)>>), T(<<40>>), PrintS(Call("mm", <<>>)), T(<<41>>)>>
       [] bh = "extends" -> <<Extends(LS(NT.t2)), Block("bx", <<T(<<60>>), PrintS(Var("a")), PrintS(Var("n")), T(<<62>>)>>)>>
